@@ -117,3 +117,61 @@ func VPH_formatOverflow() {
 		vp_Reach("infinity")
 	}
 }
+
+type vpHumanVec struct {
+	n            uint64
+	number, unit string
+}
+
+// the vectors of the repository's own TestMetric / TestBinary (human_test.go)
+var vpMetricVectors = []vpHumanVec{
+	{0, "0", "cd"}, {1, "1", "cd"}, {999, "999", "cd"}, {1000, "1.00", "kcd"}, {1094, "1.09", "kcd"}, {1096, "1.10", "kcd"},
+	{9990, "9.99", "kcd"}, {9999, "10.00", "kcd"}, {10000, "10.0", "kcd"}, {10060, "10.1", "kcd"}, {99999, "100.0", "kcd"},
+	{100000, "100", "kcd"}, {999999, "1000", "kcd"}, {1000000, "1.00", "Mcd"}, {9999999, "10.00", "Mcd"}, {10000000, "10.0", "Mcd"},
+	{99999999, "100.0", "Mcd"}, {100000000, "100", "Mcd"}, {999999999, "1000", "Mcd"}, {1000000000, "1.00", "Gcd"},
+	{9999999999, "10.00", "Gcd"}, {10000000000, "10.0", "Gcd"}, {99999999999, "100.0", "Gcd"}, {100000000000, "100", "Gcd"},
+	{999999999999, "1000", "Gcd"}, {1000000000000, "1.00", "Tcd"}, {999999999999999, "1000", "Tcd"}, {1000000000000000, "1.00", "Pcd"},
+	{999999999999999999, "1000", "Pcd"}, {1000000000000000000, "1000", "Pcd"}, {9999999999999999999, "10000", "Pcd"},
+	{10000000000000000000, "10000", "Pcd"}, {12345678900000000000, "12346", "Pcd"}, {0xffffffffffffffff, "18447", "Pcd"},
+}
+var vpBinaryVectors = []vpHumanVec{
+	{0, "0", "B"}, {1, "1", "B"}, {1023, "1023", "B"}, {1024, "1.00", "KiB"}, {1234, "1.21", "KiB"}, {1048575, "1024", "KiB"},
+	{1048576, "1.00", "MiB"}, {1073741823, "1024", "MiB"}, {1073741824, "1.00", "GiB"}, {1099511627775, "1024", "GiB"},
+	{1099511627776, "1.00", "TiB"}, {1125899906842623, "1024", "TiB"}, {1125899906842624, "1.00", "PiB"},
+	{1152921504606846975, "1024", "PiB"}, {1152921504606846976, "1024", "PiB"}, {0xffffffffffffffff, "16384", "PiB"},
+}
+
+// VPH_humanVectors: translator validation. The repository's own test vectors
+// are pushed through the *lowered* encoding (n is a solver variable pinned to
+// the vector's value, so the rounding constraints - not native floats -
+// produce the numeral); the solver must prove that the numeral is the
+// expected one.
+func VPH_humanVectors() {
+	var h *Humaner
+	var vec vpHumanVec
+	unit := "cd"
+	if vp_Choice("system", 2) == 0 {
+		h, vec = &Metric, vpMetricVectors[vp_Choice("vector", len(vpMetricVectors))]
+	} else {
+		h, vec, unit = &Binary, vpBinaryVectors[vp_Choice("vector", len(vpBinaryVectors))], "B"
+	}
+	n := vp_U64("n")
+	vp_Assume(vp_ZEq(vp_ZU(n), vp_ZU(vec.n)))
+	numeral, unitString := h.FormatNumber(n, unit)
+	vp_Assert(unitString == vec.unit, "unit as in the repository's test")
+	wantN := vp_TokDecimals(vec.number)
+	vp_Assert(vp_TokDecimals(numeral) == wantN, "decimals as in the repository's test")
+	vp_Assert(vp_ZEq(vp_TokScaled(numeral), vpTokScaledConst(vec.number)), "numeral as in the repository's test")
+	vp_Reach("end")
+}
+
+// vpTokScaledConst parses a concrete numeral (harness side, both modes).
+func vpTokScaledConst(s string) vpZ {
+	v := uint64(0)
+	for i := 0; i < len(s); i++ {
+		if s[i] != '.' {
+			v = v*10 + uint64(s[i]-'0')
+		}
+	}
+	return vp_ZU(v)
+}
